@@ -23,19 +23,40 @@ Definition ckey_eqb (a b : ckey) : bool :=
   | (k1, p1, l1), (k2, p2, l2) => Nat.eqb k1 k2 && Z.eqb l1 l2 && ostr_eqb p1 p2
   end.
 
-(* stored value: Some t (a parse tree) or None ("no completion exists") *)
-Definition cache := list (ckey * option tree).
+(* stored value: Some t (a parse tree) or None ("no completion exists").
+   Representation: per ip_ngram the list of ((length, level), value) entries,
+   newest first (a later update for the same key shadows the older one, as the
+   dict assignment does). *)
+Definition cbucket := list ((nat * Z) * option tree).
+Definition cache := list (ostr * cbucket).
 Definition cempty : cache := [].
 
+Fixpoint bucket_lookup (b : cbucket) (k : nat) (l : Z) : option (option tree) :=
+  match b with
+  | [] => None
+  | ((k', l'), v) :: r => if Nat.eqb k' k && Z.eqb l' l then Some v else bucket_lookup r k l
+  end.
+
 (* Optimizer.lookup: None = KeyError (not cached), Some v = cached value v *)
-Fixpoint clookup (c : cache) (k : ckey) : option (option tree) :=
+Fixpoint clookup (c : cache) (key : ckey) : option (option tree) :=
   match c with
   | [] => None
-  | (k', v) :: r => if ckey_eqb k' k then Some v else clookup r k
+  | (p', b) :: r =>
+      match key with (k, p, l) => if ostr_eqb p' p then bucket_lookup b k l else clookup r key end
   end.
 
 (* Optimizer.update *)
-Definition cupdate (c : cache) (k : ckey) (v : option tree) : cache := (k, v) :: c.
+Fixpoint cupdate (c : cache) (key : ckey) (v : option tree) : cache :=
+  match key with (k, p, l) =>
+    match c with
+    | [] => [(p, [((k, l), v)])]
+    | (p', b) :: r => if ostr_eqb p' p then (p', ((k, l), v) :: b) :: r else (p', b) :: cupdate r key v
+    end
+  end.
+
+(* all entries (for comparing with the implementation's dictionary) *)
+Definition cache_entries (c : cache) : list (ckey * option tree) :=
+  flat_map (fun pb => map (fun e => ((fst (fst e), fst pb, snd (fst e)), snd e)) (snd pb)) c.
 
 (* first success of a state-threading search over a list *)
 Fixpoint first_st {X S R} (f : S -> X -> option R * S) (s : S) (xs : list X) : option R * S :=
